@@ -6,6 +6,7 @@ Decides the cache / hidden-state disciplines (DESIGN.md section C10):
  R10.4 hidden file-static arguments of Vario.cpp are defined on every path before use
 """
 import os
+import re
 import sys
 
 import facts
@@ -32,6 +33,61 @@ def recv(n):
     if o is None or o["k"] == "This":
         return "this"
     return show(o)
+
+
+
+def _root_field(n):
+    """the data member of `this` an expression is rooted at (through member calls, arrows, indexing)"""
+    while n is not None:
+        f = _this_field(n)
+        if f:
+            return f
+        k = n["k"]
+        c = n.get("c") or []
+        if k in ("MCall", "MemberExpr", "Index", "OpCall", "Cast", "UnOp") and c:
+            n = c[0]
+            continue
+        return None
+    return None
+
+
+def _owned_fields(prog, cls):
+    """fields of cls holding an object the class owns: every non-null value assigned to them is a fresh
+    clone()/new (or is derived from such a field), and the root is deleted in the destructor."""
+    funcs = [f for f in prog.funcs if f.cls == cls and f.body is not None]
+    assigns = {}
+    for f in funcs:
+        for n in f.walk():
+            if n["k"] == "Assign" and n.get("op") == "=":
+                c = n["c"]
+                fld = _this_field(c[0])
+                if fld and c[1] is not None and c[1]["k"] != "Null":
+                    assigns.setdefault(fld, []).append(c[1])
+        for i in f.d.get("inits", []):
+            if i.get("field") and i.get("init") is not None and i["init"]["k"] not in ("Null", "Int", "Bool", "Float"):
+                assigns.setdefault(i["field"], []).append(i["init"])
+    deleted = set()
+    for f in funcs:
+        if f.kind == "dtor":
+            for n in f.walk():
+                if n["k"] == "Delete":
+                    fld = _this_field((n.get("c") or [None])[0])
+                    if fld:
+                        deleted.add(fld)
+    owned = set()
+    for fld, rhs in assigns.items():
+        if fld in deleted and all(r["k"] == "New" or (r["k"] == "MCall" and (r.get("callee") or "").endswith("::clone")) for r in rhs):
+            owned.add(fld)
+    changed = True
+    while changed:
+        changed = False
+        for fld, rhs in assigns.items():
+            if fld in owned:
+                continue
+            if rhs and all(_root_field(r) in owned for r in rhs):
+                owned.add(fld)
+                changed = True
+    return owned
 
 
 # ------------------------------------------------------------------------------------------
@@ -80,20 +136,30 @@ def r10_1(prog, chk):
         c = n.get("c") or []
         return bool(c) and c[0] is not None and c[0]["k"] == "Bool" and c[0].get("v") is False
 
+    # Ownership discharge: a covariance that lives in an object the KrigingSystem owns (a clone made by the
+    # system and deleted by its destructor) dies with the system, so its cache cannot leak into a later call.
+    owned = _owned_fields(prog, "KrigingSystem")
+    chk.extra["R10.1_fields_owned_by_KrigingSystem"] = sorted(owned)
+    all_owned = True
     for a in acqs:
         r = recv(a)
         st = g.after(a)
-        wit = g.search(st, is_target=is_fail_return,
-                       is_barrier=lambda n, r=r: (is_call(n, REL) and recv(n) == r) or is_call(n, "KrigingSystem::conclusion"))
-        chk.ob("R10.1b", "KrigingSystem::isReady: failure return after %s.optimizationPreProcess releases" % r,
+        r_owned = _root_field(call_obj(a)) in owned
+        all_owned = all_owned and r_owned
+        wit = None
+        if not r_owned:
+            wit = g.search(st, is_target=is_fail_return,
+                           is_barrier=lambda n, r=r: (is_call(n, REL) and recv(n) == r) or is_call(n, "KrigingSystem::conclusion"))
+        chk.ob("R10.1b", "KrigingSystem::isReady: %s is owned by the system, or a failure return after its pre-process releases it" % r,
                isr.loc(a), wit is None,
                detail=None if wit is None else "isReady() reports failure while the cache filled by this call stays attached to the model "
                "(clients return without calling conclusion() when isReady() fails)",
                key="R10.1b|KrigingSystem::isReady|%s@%s" % (r, show((a.get("c") or [None, None])[1]) if len(a.get("c") or []) > 1 else ""),
                path=None if wit is None else g.describe(wit))
         # (iii) every receiver acquired is released by conclusion()
-        chk.ob("R10.1c", "KrigingSystem::conclusion releases %s" % r, con.loc(), r in rel_recv,
-               detail=None if r in rel_recv else "isReady() pre-processes %s but conclusion() never post-processes it" % r,
+        chk.ob("R10.1c", "KrigingSystem: %s is owned by the system or released by conclusion()" % r, con.loc(),
+               r_owned or r in rel_recv,
+               detail=None if (r_owned or r in rel_recv) else "isReady() pre-processes %s but conclusion() never post-processes it" % r,
                key="R10.1c|KrigingSystem::conclusion|%s" % r)
 
     # (ii) clients.  Feasibility refinement (typestate on boolean flags of the KrigingSystem object, engine
@@ -184,11 +250,11 @@ def r10_1(prog, chk):
 
             ok = True
             wit = None
-            if not dtor_releases:
+            if not dtor_releases and not all_owned:
                 wit = g.search(g.after(a), to_exit=True, edge_ok=edge_ok,
                                is_barrier=lambda n, r=r: is_call(n, "KrigingSystem::conclusion") and recv(n) == r)
                 ok = wit is None
-            chk.ob("R10.1d", "%s: %s.isReady() -> conclusion() on every feasible exit" % (f.name, r), f.loc(a), ok,
+            chk.ob("R10.1d", "%s: %s.isReady() -> conclusion() on every feasible exit (or every pre-processed covariance is owned by the system)" % (f.name, r), f.loc(a), ok,
                    detail=None if ok else "an exit after a successful isReady() skips conclusion(); the KrigingSystem "
                    "destructor does not release either, so the model keeps the projected points of this data base",
                    key="R10.1d|%s|%s" % (f.name, r), path=None if ok else g.describe(wit))
@@ -242,6 +308,8 @@ def r10_2(prog, chk):
             if f.short in R102_HANDLE_ONLY:
                 continue
             sigkey = "%s(%s)%s" % (f.name, ",".join(p["t"] for p in f.params), " const" if isconst else "")
+            # one key per template member, whatever the instantiation
+            tkey = re.sub(r"^(\w+)<.*?>::", r"\1::", "%s(%d)%s" % (f.name, len(f.params), " const" if isconst else ""))
             if isconst:
                 # a const member must not hand out mutable access to the shared storage
                 bad = _is_mutable_type(f.ret) and any(_touches_v(r) for r in f.walk() if r["k"] == "Return")
@@ -249,7 +317,7 @@ def r10_2(prog, chk):
                        f.loc(), not bad,
                        detail=None if not bad else "returns `%s` into storage shared with every copy of the vector; "
                        "writing through it changes the copies" % f.ret,
-                       key="R10.2c|" + sigkey)
+                       key="R10.2c|" + tkey)
                 continue
             g = CFG(f)
             is_detach = lambda n: n["k"] == "MCall" and (n.get("callee") or "").endswith("::_detach") and \
@@ -273,7 +341,7 @@ def r10_2(prog, chk):
                 chk.ob("R10.2m", "%s: _detach() dominates %s" % (sigkey, show(n)[:60]), f.loc(n), wit is None,
                        detail=None if wit is None else "mutable access to the shared storage on a path without _detach(): "
                        "a copy sharing the storage is modified too",
-                       key="R10.2m|%s|%s" % (sigkey, short), path=None if wit is None else g.describe(wit))
+                       key="R10.2m|%s|%s" % (tkey, short), path=None if wit is None else g.describe(wit))
     chk.floor("R10.2-members", n_members, 200)
     chk.floor("R10.2m-sites", n_sites, 70)
 
